@@ -101,6 +101,30 @@ def translate():
             src["clamp"] = body == ["proportion=1.0"] and not st.orelse
     if not all(src.values()):
         raise Untranslatable(f"estimate_u_values: use of the proportion formulae not recognised {src}")
+    # fail closed on ANY other statement that writes the quantities the model speaks about
+    watched = {"proportion", "sample_size", "total_nodes", "max_pairs", "frame_counts"}
+    allowed = {"sample_size=_rows_needed_for_n_pairs(max_pairs)", "proportion=sample_size/total_nodes",
+               "proportion,sample_size=_proportion_sample_size_link_only(frame_counts,max_pairs)", "proportion=1.0",
+               "sample_size=total_nodes", "total_nodes=result[0]['count']", "total_nodes=sum(frame_counts)",
+               "frame_counts=[res['count']forresinresult]"}
+    for node in ast.walk(f3):
+        targets = []
+        if isinstance(node, ast.Assign):
+            targets = node.targets
+        elif isinstance(node, (ast.AugAssign, ast.AnnAssign)):
+            targets = [node.target]
+        elif isinstance(node, ast.NamedExpr):
+            targets = [node.target]
+        elif isinstance(node, (ast.For, ast.comprehension)) and not isinstance(node, ast.comprehension):
+            targets = [node.target]
+        names = {n.id for t in targets for n in ast.walk(t) if isinstance(n, ast.Name)}
+        if names & watched:
+            txt = ast.unparse(node).replace(" ", "").replace("\n", "")
+            if txt not in allowed:
+                raise Untranslatable("estimate_u_values writes " + ", ".join(sorted(names & watched)) + " in an unmodelled statement: " + ast.unparse(node)[:120])
+    clamp2 = [st for st in f3.body if isinstance(st, ast.If) and ast.unparse(st.test).replace(" ", "") == "sample_size>total_nodes"]
+    if len(clamp2) != 1 or [ast.unparse(x).replace(" ", "") for x in clamp2[0].body] != ["sample_size=total_nodes"]:
+        raise Untranslatable("estimate_u_values: `if sample_size > total_nodes: sample_size = total_nodes` not found")
     # the sample is taken with that proportion
     if "_random_sample_sql(proportion,sample_size,seed)" not in ast.unparse(f3).replace(" ", ""):
         raise Untranslatable("estimate_u_values: sample not drawn with (proportion, sample_size, seed)")
